@@ -67,6 +67,28 @@ class DispatcherTask(Task):
             results = explore(r, run, contracts=contracts, inline=())
         except V.Unsupported as u:
             out['error'] = f'{fname}: outside the modelled subset: {u}'
+            # bounded fall-back: every definition's match values with an all-zero, an all-ones and random remaining bits
+            import random
+            rnd = random.Random(self.pgn)
+            tried = 0
+            for dfn in group:
+                base_p = 0
+                mask = 0
+                for f in dfn.match_fields:
+                    base_p |= int(f.match) << f.offset_bits
+                    mask |= ((1 << f.L) - 1) << f.offset_bits
+                for tail in [0, (1 << 223 * 8) - 1] + [rnd.getrandbits(rnd.choice((64, 80, 128, 400))) for _ in range(6)]:
+                    payload = base_p | (tail & ~mask)
+                    tried += 1
+                    rp = replay(self.pgn, payload)
+                    if rp.get('confirmed'):
+                        out['results'].append({'obligation': f'{base}/bounded-fallback', 'kind': 'bounded', 'status': 'refuted', 'backend': 'native-contract', 'seconds': 0.0,
+                                               'model': {'payload': payload}, 'replay': rp, 'function': f'pgns.{fname}'})
+                        break
+                else:
+                    continue
+                break
+            out['bounded'].append({'function': f'pgns.{fname}', 'kind': 'native dispatch comparison (function outside subset)', 'inputs_tried': tried, 'label': 'bounded'})
             return out
         fd = info.describe()
         fd['paths'] = len(results)
